@@ -15,6 +15,14 @@ import (
 	"path/filepath"
 	"strings"
 
+	"github.com/tdewolff/minify/v2"
+	mincss "github.com/tdewolff/minify/v2/css"
+	minhtml "github.com/tdewolff/minify/v2/html"
+	minjs "github.com/tdewolff/minify/v2/js"
+	minjson "github.com/tdewolff/minify/v2/json"
+	minsvg "github.com/tdewolff/minify/v2/svg"
+	minxml "github.com/tdewolff/minify/v2/xml"
+
 	"verifharness/h"
 )
 
@@ -105,7 +113,55 @@ func init() {
 				c.R.Add(h.Finding{Stage: st.Name, Kind: "crash", What: fmt.Sprintf("stress process failed: %v", runErr), Input: "cmd/race13 " + cfgS, Impl: msg})
 			}
 		}
+		c13HookCoverage(c)
 		st.End()
 		return nil
 	})
+}
+
+// c13HookCoverage compares the package-level byte slices the translator found (Gen/ConcFacts.lean byteGlobals) with the
+// names the VerifGlobals hooks expose to the run-time "never written through" check.  A slice the hooks do not list is still
+// covered by the static facts (globalWrites, appendBases, globalArgs), so this is reported as a note, not as a finding.
+func c13HookCoverage(c *Ctx) {
+	b, err := os.ReadFile(filepath.Join(h.Root(), "lean", "Verif", "Gen", "ConcFacts.lean"))
+	if err != nil {
+		return
+	}
+	txt := string(b)
+	i := strings.Index(txt, "def byteGlobals")
+	if i < 0 {
+		return
+	}
+	txt = txt[i:]
+	if j := strings.Index(txt, "]"); j >= 0 {
+		txt = txt[:j]
+	}
+	hooked := map[string]bool{}
+	add := func(pkg string, m map[string][]byte) {
+		for k := range m {
+			hooked[pkg+"."+k] = true
+		}
+	}
+	add("minify", minify.VerifGlobals())
+	add("css", mincss.VerifGlobals())
+	add("html", minhtml.VerifGlobals())
+	add("js", minjs.VerifGlobals())
+	add("json", minjson.VerifGlobals())
+	add("svg", minsvg.VerifGlobals())
+	add("xml", minxml.VerifGlobals())
+	var missing []string
+	n := 0
+	for _, f := range strings.Split(txt, "\"") {
+		if strings.Contains(f, ".") && !strings.ContainsAny(f, " \n,[") {
+			n++
+			if !hooked[f] && !strings.HasSuffix(f, "._Hash_text") {
+				missing = append(missing, f)
+			}
+		}
+	}
+	if len(missing) > 0 {
+		c.R.Note("package-level byte slices not exposed by the VerifGlobals hooks (covered by the static facts only): %s", strings.Join(missing, ", "))
+	} else {
+		c.R.Note("all %d package-level byte slices found by the translator are exposed by the VerifGlobals hooks", n)
+	}
 }
